@@ -156,15 +156,24 @@ class Proof:
             res['status'] = 'tool-error'
             res['detail'] = 'goto-cc failed: ' + (err or out)[-3000:]
             return res
-        cmd = ['goto-instrument', '--dfcc', self.entry]
-        if self.enforce:
-            cmd += ['--enforce-contract', self.enforce]
-        for r in self.replace:
-            cmd += ['--replace-call-with-contract', r]
-        if self.loop_contracts:
-            cmd += ['--apply-loop-contracts']
-        cmd += [a, b]
-        rc, out, err, dt = _run(cmd, 600)
+        replace = list(self.replace)
+        while True:
+            cmd = ['goto-instrument', '--dfcc', self.entry]
+            if self.enforce:
+                cmd += ['--enforce-contract', self.enforce]
+            for r in replace:
+                cmd += ['--replace-call-with-contract', r]
+            if self.loop_contracts:
+                cmd += ['--apply-loop-contracts']
+            cmd += [a, b]
+            rc, out, err, dt = _run(cmd, 600)
+            # a callee contract whose function the changed code no longer calls is not in the binary: nothing to replace
+            m = re.search(r"Function to replace '(\w+)' not found", out + err) if rc != 0 else None
+            if m and m.group(1) in replace:
+                replace.remove(m.group(1))
+                res.setdefault('replace_not_called', []).append(m.group(1))
+                continue
+            break
         if rc != 0:
             res['status'] = 'tool-error'
             res['detail'] = 'goto-instrument failed: ' + (out + err)[-3000:]
@@ -178,7 +187,8 @@ class Proof:
             ids = [m.group(1) for m in re.finditer(r'^Loop (\S+):', out2 or '', re.M)]
             ids = [i for i in ids if not i.startswith('__CPROVER')]
             for i in ids:
-                cmd += ['--unwindset', '%s:%d' % (i, self.unwind)]
+                # loops of auto-lowered helpers (typically small constant-bound loops over a digest, an id, a table) get a larger bound
+                cmd += ['--unwindset', '%s:%d' % (i, 34 if i.startswith('auto_') or '__' in i.split('.')[0] else self.unwind)]
             cmd += ['--no-unwinding-assertions']
         elif self.unwind:
             cmd += ['--unwind', str(self.unwind), '--unwinding-assertions']
